@@ -594,3 +594,34 @@ package vm
 //@ call (*VM).throw requires[arr] same(arr, old(*item(v, 1).(*stackitem.ByteArray)))
 //@ ensures[value] old(0 <= x0(v) && x0(v) < len(*item(v, 1).(*stackitem.ByteArray))) ==> depth(v) == old(depth(v)) - 1 && topInt(v, old((*item(v, 1).(*stackitem.ByteArray))[x0(v)]))
 //@ ensures[thrown] old(i32(x0(v))) && !old(0 <= x0(v) && x0(v) < len(*item(v, 1).(*stackitem.ByteArray))) ==> ncalls("(*VM).throw") == 1
+
+// Slots. INITSLOT may run once per context: it FAULTs if either slot is already there, if both
+// sizes are zero, or if the stack holds fewer items than there are arguments; otherwise it creates
+// the local slot (all Null) and moves the top items of the stack into the argument slot in order.
+//@ func (*Slot).init
+//@ requires s != nil && rc != nil && n >= 0 && n <= 255 && -2147483648 <= *rc && *rc <= 2147483647
+//@ requires[nopanic] *s == nil
+//@ modifies *s, *rc
+//@ ensures[size] *s != nil && len(*s) == n && fresh(*s) && forall(i, 0, n, (*s)[i] == nil)
+//@ ensures[count] *rc == old(*rc) + n
+//@ func (*Slot).initFromStack
+//@ opt frame off
+//@ opt callers trust
+//@ requires s != nil && t != nil && n >= 0
+//@ requires[nopanic] *s == nil && n <= len(t.elems)
+//@ modifies *s, t.elems
+//@ ensures[size] *s != nil && len(*s) == n && fresh(*s)
+//@ ensures[moved] forall(i, 0, n, (*s)[i] == old(t.elems[len(t.elems)-1-i].value))
+//@ ensures[stack] len(t.elems) == old(len(t.elems)) - n && forall(j, 0, len(t.elems), t.elems[j] == old(t.elems[j]))
+//@ loop 0 invariant *s != nil && len(*s) == n && fresh(*s) && 0 <= $i && $i <= n && len(t.elems) == old(len(t.elems)) - $i && forall(k, 0, $i, (*s)[k] == old(t.elems[len(t.elems)-1-k].value)) && forall(j, 0, len(t.elems), t.elems[j] == old(t.elems[j]))
+
+//@ cases (*VM).execute
+//@ case INITSLOT
+//@ opt inline-defers yes
+//@ requires op == opcode.INITSLOT && v.getPrice == nil && wfStack(v.estack) && len(parameter) == 2 && 0 <= v.refs && v.refs <= 1 << 30
+//@ panics-if ctx.local != nil || ctx.arguments != nil || (parameter[0] == 0 && parameter[1] == 0) || depth(v) < parameter[1]
+//@ ensures[nofault] old(ctx.local == nil && ctx.arguments == nil && !(parameter[0] == 0 && parameter[1] == 0) && depth(v) >= parameter[1])
+//@ ensures[locals] len(ctx.local) == old(parameter[0]) && forall(i, 0, len(ctx.local), ctx.local[i] == nil)
+//@ ensures[args] len(ctx.arguments) == old(parameter[1]) && forall(i, 0, len(ctx.arguments), ctx.arguments[i] == old(v.estack.elems[len(v.estack.elems)-1-i].value))
+//@ ensures[stack] depth(v) == old(depth(v)) - old(parameter[1]) && forall(j, 0, depth(v), v.estack.elems[j] == old(v.estack.elems[j]))
+//@ ensures[err] v.refs <= MaxStackSize ==> err == nil
